@@ -18,6 +18,81 @@ CONTENT_CHANGING = re.compile(r"::(to_(ascii_)?(lower|upper)case|make_ascii_(low
                               r"trim_matches|trim_start_matches|trim_end_matches|strip_prefix|strip_suffix|escape_\w+|repeat|drain|pop|clear|split_off|rotate_\w+|percent_decode\w*|decode\w*|from_utf8_lossy)$")
 
 
+def header_loop_rules(ctx, rule):
+    """the head reader's header loop: every non-empty line that parses is appended (once, in order) before the next line is read; shared
+    with the properties whose decisions need the complete header list (C03, C16)"""
+    facts = ctx.facts
+    import parser_rules as PRS, absint
+    PM = PRS.pmodel(facts)
+    rd = PM.rd
+    ctx.touch(rd)
+    lines = PM.line_calls()
+    first = [b for b in lines if all(rd.dominates(b, x, unwind=False) for x in lines)]
+    loop_lines = [b for b in lines if b not in first]
+    ctx.ob(rule, "%s|reads-header-lines" % PM.read_def, "after the request line the head reader reads further lines", bool(loop_lines), "%s:%d" % (rd.file, rd.line))
+    LINE = ("sym", "a-header-line")
+    nrc = [bb for bb, t in rd.calls() if call_matches(t, r"^request::new_request$")]
+    bad_skip, bad_mut, bad_end, n_ok = [], [], [], 0
+    for b in loop_lines:
+        ic = rd.blocks[b]["inl_call"]
+        st = symex.Sym(rd)
+        st.write_key(pl_key(ic["dest"]), PRS.Ok_(LINE))
+        ps = absint.Explorer(rd, stop_blocks=set(lines), stop=lambda bb, t, s: "built" if bb in nrc else None, max_paths=4000, deep_events=True).run(ic["target"], st)
+        ctx.paths += len(ps)
+        for p in ps:
+            if p.end[0] in PRS.DEAD:
+                continue
+            parsed = [e for e in p.calls() if rd.local_ty(rd.term(e[0])["dest"]["l"]).startswith("std::result::Result<common::Header,") and any(absint.contains(a, LINE) for a in (e[8] or e[3]))]
+            parse_ok = any(c and c[0] == "variant" and c[2] in ("Ok", "Continue") and parsed and absint.mentions_call(c[3], parsed[0][4]) for bb, c in p.conds)
+            pushes = [e for e in p.calls() if re.search(r"Vec::<T(, A)?>::push$", e[2]) and "common::Header" in (e[7] or "")]
+            muts = [short(e[2]) for e in p.calls() if re.search(r"Vec::<T(, A)?>::(insert|remove|swap_remove|retain|clear|truncate|pop|dedup\w*|sort\w*|reverse|drain)$", e[2]) and "common::Header" in (e[7] or "")]
+            if muts:
+                bad_mut.append(muts)
+            empties = [c[2] for bb, c in p.conds if c and c[0] == "scalar" and isinstance(c[2], bool) and c[1][0] == "call" and c[1][1].endswith("is_empty") and absint.contains(c[1], LINE)]
+            goes_on = p.end[0] == "stop" and p.end[2] == "block"
+            leaves = p.end[0] == "stop" and p.end[2] == "built"
+            if goes_on:
+                if not (parsed and parse_ok and len(pushes) == 1 and any(absint.mentions_call(a, parsed[0][4]) for a in (pushes[0][8] or pushes[0][3]))):
+                    bad_skip.append("next line read after %d pushes (parsed=%s)" % (len(pushes), bool(parsed and parse_ok)))
+                else:
+                    n_ok += 1
+                if True in empties:
+                    bad_end.append("reads on after the empty line")
+            if leaves and True not in empties:
+                bad_end.append("leaves the header loop although the line was not empty")
+    ctx.ob(rule, "%s|every-line-pushed" % PM.read_def, "every non-empty header line that parses is appended exactly once, as parsed, before the next line is read (none is skipped, dropped or duplicated)",
+           n_ok > 0 and not bad_skip, "%s:%d" % (rd.file, rd.line), None if not bad_skip else str(bad_skip[:3]))
+    ctx.ob(rule, "%s|append-only" % PM.read_def, "the header list is only ever appended to (order = arrival order, duplicates kept)", not bad_mut, "%s:%d" % (rd.file, rd.line), None if not bad_mut else str(bad_mut[:3]))
+    ctx.ob(rule, "%s|empty-line-ends-head" % PM.read_def, "the head ends exactly at the first empty line", not bad_end, "%s:%d" % (rd.file, rd.line), None if not bad_end else str(bad_end[:3]))
+
+
+
+def mutations_of(f, local):
+    """places where the value that entered through parameter `local` is borrowed mutably or overwritten (following whole-value moves)"""
+    alias = {local}
+    changed = True
+    while changed:
+        changed = False
+        for bb, i, st in f.assigns():
+            r = st["rhs"]
+            if r["rv"] == "use" and r["op"].get("k") in ("move", "copy") and not st["lhs"]["p"]:
+                pl = r["op"].get("pl")
+                if pl and not pl["p"] and pl["l"] in alias and st["lhs"]["l"] not in alias and st["lhs"]["l"] != 0:
+                    alias.add(st["lhs"]["l"]); changed = True
+    out = []
+    for bb, i, st in f.assigns():
+        r = st["rhs"]
+        if r["rv"] == "ref" and r.get("mut") and r["pl"]["l"] in alias and "*" not in r["pl"]["p"]:
+            us = f.uses().get(st["lhs"]["l"], []) if not st["lhs"]["p"] else []
+            # capacity management does not change the content
+            if us and all(u[0] == "term" and u[2]["t"] == "call" and call_matches(u[2], r"(Vec::<T(, A)?>|String)::(shrink_to_fit|shrink_to|reserve|reserve_exact)$") for u in us):
+                continue
+            out.append("&mut at %s" % f.loc(bb))
+        if st["lhs"]["l"] in alias and st["lhs"]["p"] and "*" not in st["lhs"]["p"]:
+            out.append("field assignment at %s" % f.loc(bb))
+    return out
+
+
 def run(ctx):
     facts = ctx.facts
     roles.bind(facts)
@@ -91,47 +166,11 @@ def run(ctx):
     ctx.ob("C02.2", "%s|literal-digits-agree" % phv.id, "every token the version parser accepts is `HTTP/x.y` and yields the version (x, y)", okall and bool(seen), "%s:%d" % (phv.file, phv.line), str(seen))
     ctx.ob("C02.2", "%s|has-1.0-and-1.1" % phv.id, "HTTP/1.0 and HTTP/1.1 are recognised", {"HTTP/1.0", "HTTP/1.1"} <= set(seen), "%s:%d" % (phv.file, phv.line))
 
-    # ---- C02.3 header loop: every non-empty line that parses is appended (once, in order) before the next line is read
+    header_loop_rules(ctx, "C02.3")
     rd = PM.rd
-    ctx.touch(rd)
     lines = PM.line_calls()
     first = [b for b in lines if all(rd.dominates(b, x, unwind=False) for x in lines)]
-    loop_lines = [b for b in lines if b not in first]
-    ctx.ob("C02.3", "%s|reads-header-lines" % PM.read_def, "after the request line the head reader reads further lines", bool(loop_lines), "%s:%d" % (rd.file, rd.line))
-    LINE = ("sym", "a-header-line")
     nrc = [bb for bb, t in rd.calls() if call_matches(t, r"^request::new_request$")]
-    bad_skip, bad_mut, bad_end, n_ok = [], [], [], 0
-    for b in loop_lines:
-        ic = rd.blocks[b]["inl_call"]
-        st = symex.Sym(rd)
-        st.write_key(pl_key(ic["dest"]), PRS.Ok_(LINE))
-        ps = absint.Explorer(rd, stop_blocks=set(lines), stop=lambda bb, t, s: "built" if bb in nrc else None, max_paths=4000, deep_events=True).run(ic["target"], st)
-        ctx.paths += len(ps)
-        for p in ps:
-            if p.end[0] in PRS.DEAD:
-                continue
-            parsed = [e for e in p.calls() if rd.local_ty(rd.term(e[0])["dest"]["l"]).startswith("std::result::Result<common::Header,") and any(absint.contains(a, LINE) for a in (e[8] or e[3]))]
-            parse_ok = any(c and c[0] == "variant" and c[2] in ("Ok", "Continue") and parsed and absint.mentions_call(c[3], parsed[0][4]) for bb, c in p.conds)
-            pushes = [e for e in p.calls() if re.search(r"Vec::<T(, A)?>::push$", e[2]) and "common::Header" in (e[7] or "")]
-            muts = [short(e[2]) for e in p.calls() if re.search(r"Vec::<T(, A)?>::(insert|remove|swap_remove|retain|clear|truncate|pop|dedup\w*|sort\w*|reverse|drain)$", e[2]) and "common::Header" in (e[7] or "")]
-            if muts:
-                bad_mut.append(muts)
-            empties = [c[2] for bb, c in p.conds if c and c[0] == "scalar" and isinstance(c[2], bool) and c[1][0] == "call" and c[1][1].endswith("is_empty") and absint.contains(c[1], LINE)]
-            goes_on = p.end[0] == "stop" and p.end[2] == "block"
-            leaves = p.end[0] == "stop" and p.end[2] == "built"
-            if goes_on:
-                if not (parsed and parse_ok and len(pushes) == 1 and any(absint.mentions_call(a, parsed[0][4]) for a in (pushes[0][8] or pushes[0][3]))):
-                    bad_skip.append("next line read after %d pushes (parsed=%s)" % (len(pushes), bool(parsed and parse_ok)))
-                else:
-                    n_ok += 1
-                if True in empties:
-                    bad_end.append("reads on after the empty line")
-            if leaves and True not in empties:
-                bad_end.append("leaves the header loop although the line was not empty")
-    ctx.ob("C02.3", "%s|every-line-pushed" % PM.read_def, "every non-empty header line that parses is appended exactly once, as parsed, before the next line is read (none is skipped, dropped or duplicated)",
-           n_ok > 0 and not bad_skip, "%s:%d" % (rd.file, rd.line), None if not bad_skip else str(bad_skip[:3]))
-    ctx.ob("C02.3", "%s|append-only" % PM.read_def, "the header list is only ever appended to (order = arrival order, duplicates kept)", not bad_mut, "%s:%d" % (rd.file, rd.line), None if not bad_mut else str(bad_mut[:3]))
-    ctx.ob("C02.3", "%s|empty-line-ends-head" % PM.read_def, "the head ends exactly at the first empty line", not bad_end, "%s:%d" % (rd.file, rd.line), None if not bad_end else str(bad_end[:3]))
 
     # ---- C02.4 / C02.5 provenance: request line -> new_request arguments -> Request fields -> accessors
     ok_args = len(first) == 1 and len(nrc) == 1
@@ -188,6 +227,10 @@ def run(ctx):
         vals = {repr(r["request"].get(fld)) for r in oks}
         ok = vals == {repr(("init", (cands[0],)))}
         ctx.ob("C02.4", "%s|field-%s" % (FM.nr0.id, fld), "Request.%s is exactly the value handed to new_request" % fld, ok, "%s:%d" % (FM.nr0.file, FM.nr0.line), None if ok else str(sorted(vals))[:160])
+        # ... and nothing changes it in place on the way (`headers.retain(..)`, `path.push_str(..)`): it is never borrowed mutably or assigned
+        muts = mutations_of(nr, cands[0])
+        ctx.ob("C02.4", "%s|param-%s-not-modified" % (FM.nr0.id, fld), "the %s handed to new_request is not modified in place before it is stored" % fld, not muts, "%s:%d" % (FM.nr0.file, FM.nr0.line),
+               None if not muts else str(muts[:3]))
     # accessors return the stored fields
     import request_rules as RR
     RM = RR.rmodel(facts)
